@@ -103,8 +103,11 @@ Definition check_state (mode : nat) (cu2 floor2 k2max eps2 : F) (o : state_obs) 
       if ~~ (eps2 * strace X * (10%:R ^+ 4) < 1) then 1%N else
       let t2 := tol2_solve cu2 n m k2 in
       let bn := Num.max (Num.max (sfro2 B) (sfro2 A * sfro2 (so_C o))) floor2 in
+      (* the natural scale of the coefficients is ||A^+|| ||B|| (tr X = ||A^+||_F^2): when the data are nearly orthogonal to
+         range(A) the solution is small by cancellation and its rounding error is relative to that scale, not to ||C|| *)
+      let cref := Num.max floor2 (strace X * sfro2 B) in
       let mc := odd mode in let mr := odd (mode %/ 2) in let mj := odd (mode %/ 4) in
-      if mc && ~~ close2 t2 floor2 (flatten (so_C o)) (flatten C) then 3%N
+      if mc && ~~ close2 t2 cref (flatten (so_C o)) (flatten C) then 3%N
       else if mr && ~~ (svnrm2 (svsub (so_R o) (flatten (ssub B (smul n A C)))) <= t2 * bn) then 4%N
       else if mr && ~~ (svnrm2 (svsub (so_R o) (flatten (ssub B (smul n A (so_C o))))) <= cu2 * (n * m)%N%:R * bn) then 5%N
       else
@@ -117,7 +120,7 @@ Definition check_state (mode : nat) (cu2 floor2 k2max eps2 : F) (o : state_obs) 
               | jc :: Jr, Dk :: Dr =>
                   let V := smul n (wscale (so_w o) Dk) C in
                   let sc := flatten (sopp (proj_compl_with n m X A V)) in
-                  let vn := Num.max (sfro2 V) floor2 in
+                  let vn := Num.max (Num.max (sfro2 V) (sfro2 (wscale (so_w o) Dk) * (strace X * sfro2 B))) floor2 in
                   if size jc != (s * n)%N then 2%N
                   else if svnrm2 (svsub jc sc) <= t2 * vn then cols k.+1 Jr Dr
                   else (10 + k)%N
@@ -180,7 +183,7 @@ Definition check_rankdef (mode : nat) (cu2 floor2 k2max eps2 : F) (n m : nat) (w
       else
         let t2 := tol2_solve cu2 n m (mn_k2 mn) in
         let bn := Num.max (Num.max (sfro2 B) (sfro2 A * sfro2 Cimpl)) floor2 in
-        if odd mode && ~~ close2 t2 floor2 (flatten Cimpl) (flatten (mn_C mn)) then 3%N
+        if odd mode && ~~ close2 t2 (Num.max floor2 (mn_smin2inv mn * sfro2 B)) (flatten Cimpl) (flatten (mn_C mn)) then 3%N
         else if odd (mode %/ 2) && ~~ (svnrm2 (svsub Rimpl (flatten (ssub B (smul n A (mn_C mn))))) <= t2 * bn) then 4%N
         else 0%N
   end.
